@@ -263,6 +263,21 @@ Theorem C14_goal_window_close : forall total q g, goal_window total q g ->
 Proof. exact goal_window_close. Qed.
 Print Assumptions C14_goal_window_close.
 
+(* Code 0 on a fresh LinearHist / LogHist: the counters every later operation (Counts(), the
+   quantile ranks) is compared against hold, per counter, exactly the number of values added so
+   far that the stated edges put there. *)
+Theorem C14_check_exact_counts_linear : forall mn mx nb ops s, mn < mx -> (0 < nb)%nat -> valid_slot nb s ->
+  ops_ok_exact (KLin mn mx) (h_empty nb) ops ->
+  slot_count (final_state (h_empty nb) ops) s = Some (count_slot (lin_slot mn mx nb) s (adds_of ops)).
+Proof. exact exact_counts_lin. Qed.
+Print Assumptions C14_check_exact_counts_linear.
+
+Theorem C14_check_exact_counts_log : forall b m nb ops s, (2 <= b)%Z -> (0 < m)%nat -> valid_slot nb s ->
+  ops_ok_exact (KLog b m) (h_empty nb) ops ->
+  slot_count (final_state (h_empty nb) ops) s = Some (count_slot (log_slot (inject_Z b) m nb) s (adds_of ops)).
+Proof. exact exact_counts_log. Qed.
+Print Assumptions C14_check_exact_counts_log.
+
 (* Non-vacuity: LinearHist [0,4) in 4 bins; Add(1.5) -> bin 1; Counts; Quantile(1) -> BinToValue(2) = 2;
    BinToValue(0.5) = 0.5.  Accepted with code 0, and the line parses to the end. *)
 Example C14_check_ok_example :
